@@ -462,9 +462,9 @@ type bgcWalk struct {
 	// history facts the oracles' guards need
 	lateRelease bool // a revision was admitted while the clean-up was running (known finding releaseWhileFinalising)
 	earlyExit   bool // the rollout was deleted between the admission of a release and its first BatchRelease (exitBeforeBatchRelease)
-	// the rollout was deleted while its success / rollback clean-up was under way: the deletion sequence continues from the
-	// other sequence's cursor and skips what comes earlier in its own order (finding bgCursorCarried)
-	cursorCarried bool
+	// (finding bgCursorCarried — a rollout deleted while its success / rollback clean-up was under way continued the deletion
+	// sequence from the other sequence's cursor — is repaired: Reconcile clears the cursor when a Progressing rollout turns
+	// Terminating / Disabling; that region carries no history flag any more and is judged at full strength)
 	faulted     bool
 	ticks       int
 	releasedAt  int
@@ -477,7 +477,7 @@ func bgcNewWalk(c *Ctx, sc bgcScenario) *bgcWalk {
 }
 
 func (w *bgcWalk) flags() J {
-	return J{"lateRelease": w.lateRelease, "earlyExit": w.earlyExit, "cursorCarried": w.cursorCarried}
+	return J{"lateRelease": w.lateRelease, "earlyExit": w.earlyExit}
 }
 
 func (w *bgcWalk) do(label string) {
@@ -521,10 +521,6 @@ func (w *bgcWalk) do(label string) {
 	case label == "delete":
 		if pre.Ro != nil && pre.Br == nil && pre.World.InProgressAnno {
 			w.earlyExit = true
-		}
-		if pre.Ro != nil && pre.Ro.Sub != nil && pre.Ro.Phase == "Progressing" && (pre.Ro.Reason == "finalising" || pre.Ro.Reason == "cancelling") &&
-			pre.Ro.Sub.FinStep != "empty" && pre.Ro.Sub.FinStep != "end_" {
-			w.cursorCarried = true
 		}
 		s.deleteRollout()
 	default:
@@ -897,7 +893,7 @@ func runClosedLoopBG(c *Ctx) {
 			// deterministic on every run: the witnesses of the open findings
 			switch sc.Name {
 			case "traffic-then-plain":
-				atFin(sc, combo{"routeTrafficToNew", "delete"}) // bgCursorCarried
+				atFin(sc, combo{"routeTrafficToNew", "delete"}) // fixed finding bgCursorCarried
 				atState(sc, combo{"paused", "release:v1"})      // a rollback while half of the traffic is on the canary Service
 				atState(sc, combo{"paused", "release:v3"})      // a newer revision while step 1 waits: refused
 			case "pct-traffic":
